@@ -30,22 +30,28 @@ type Cfg struct {
 	Shape  string // all | unk | dup | one
 	Mode   string // shard (RequestSharded) | merge (Request)
 	Env    int    // 1: the environment moves the leader of t/0 (or rehashes the coordinators) between split and issue
+	// EOF: how the client treats a connection that dies on its first request
+	// (every shard connection of these scenarios is fresh). 0: the default,
+	// "first read EOF" is not retried, the piece becomes an error shard;
+	// 1: kgo.AlwaysRetryEOF, the piece is retried (re-split).
+	EOF int
 }
 
 func (c Cfg) Name() string {
-	return fmt.Sprintf("%s/nb%d/%s/%s/%s/env%d", c.Kind, c.NB, c.Layout, c.Shape, c.Mode, c.Env)
+	return fmt.Sprintf("%s/nb%d/%s/%s/%s/env%d/eof%d", c.Kind, c.NB, c.Layout, c.Shape, c.Mode, c.Env, c.EOF)
 }
 
 // Parse is the inverse of Name.
 func Parse(name string) (Cfg, bool) {
 	f := strings.Split(name, "/")
-	if len(f) != 6 || !strings.HasPrefix(f[1], "nb") || !strings.HasPrefix(f[5], "env") {
+	if len(f) != 7 || !strings.HasPrefix(f[1], "nb") || !strings.HasPrefix(f[5], "env") || !strings.HasPrefix(f[6], "eof") {
 		return Cfg{}, false
 	}
 	nb, err1 := strconv.Atoi(f[1][2:])
 	env, err2 := strconv.Atoi(f[5][3:])
-	c := Cfg{Kind: f[0], NB: nb, Layout: f[2], Shape: f[3], Mode: f[4], Env: env}
-	if err1 != nil || err2 != nil || KindByName(c.Kind) == nil || !c.Valid() {
+	eof, err3 := strconv.Atoi(f[6][3:])
+	c := Cfg{Kind: f[0], NB: nb, Layout: f[2], Shape: f[3], Mode: f[4], Env: env, EOF: eof}
+	if err1 != nil || err2 != nil || err3 != nil || KindByName(c.Kind) == nil || !c.Valid() {
 		return Cfg{}, false
 	}
 	return c, true
@@ -86,6 +92,9 @@ func (c Cfg) Valid() bool {
 		return false
 	}
 	if c.Mode != "shard" && c.Mode != "merge" {
+		return false
+	}
+	if c.EOF != 0 && c.EOF != 1 {
 		return false
 	}
 	if c.Env != 0 && (c.Env != 1 || !EnvApplies(k) || c.NB == 1) {
@@ -215,12 +224,15 @@ func Scenario(cfg Cfg) *netctl.Scenario {
 }
 
 func setup(x *netctl.Exec, cfg Cfg, kind *Kind) {
-	c := x.Cluster(cfg.NB, kfake.SeedTopics(3, "t"))
+	c := x.Cluster(cfg.NB, kfake.SeedTopics(3, "t"), kfake.SeedTopics(1, "s"))
 	ld := leaders(cfg.NB, cfg.Layout)
 	for p, n := range ld {
 		if err := c.MoveTopicPartition("t", int32(p), n); err != nil {
 			panic(err)
 		}
+	}
+	if err := c.MoveTopicPartition("s", 0, ld[0]); err != nil { // s/0 shares its leader with t/0: one broker answers for two topics
+		panic(err)
 	}
 	ca, cb := coordTargets(cfg.NB, cfg.Layout)
 	st := &state{cfg: cfg, kind: kind}
@@ -276,7 +288,11 @@ func setup(x *netctl.Exec, cfg Cfg, kind *Kind) {
 		h.Close()
 	}
 
-	cl := nscen.NewClient(x, "c", c)
+	var copts []kgo.Opt
+	if cfg.EOF == 1 {
+		copts = append(copts, kgo.AlwaysRetryEOF())
+	}
+	cl := nscen.NewClient(x, "c", c, copts...)
 	req := kind.Build(&st.names, cfg.Shape)
 	// The requested items are taken BEFORE the call: some sharders rewrite
 	// the caller's request (AddPartitionsToTxn appends to Transactions).
@@ -356,7 +372,9 @@ func errClass(err error) string {
 	return fmt.Sprintf("%T", err)
 }
 
-func known(item string) bool { return item == "t/0" || item == "t/1" || item == "t/2" }
+func known(item string) bool {
+	return item == "t/0" || item == "t/1" || item == "t/2" || item == "s/0"
+}
 
 // fan is the number of shards an item is expected in: one, except for the
 // replica-routed kinds, where every replica of a known partition gets its own
@@ -414,12 +432,19 @@ func (st *state) checkShards(x *netctl.Exec) {
 	}
 	want := st.want
 	if k.Cat == "brokers" {
+		if sh := st.shards[0]; len(st.shards) == 1 && sh.Err != nil && sh.Meta.NodeID < 0 {
+			// The broker list could not be loaded: the request failed
+			// wholesale as one error shard (documented sharder behaviour).
+			x.Observe("shards[wholesale E(%s)]", errClass(sh.Err))
+			return
+		}
 		want = map[string]int{}
 		for i := 0; i < st.cfg.NB; i++ {
 			want["b:"+strconv.Itoa(i)] = 1
 		}
 	}
 	in := map[string][]int{}    // item -> shards it appears in
+	total := map[string]int{}   // item -> occurrences over all shards
 	subIn := map[string][]int{} // sub item -> shards
 	var desc []string
 	answered := 0
@@ -463,6 +488,7 @@ func (st *state) checkShards(x *netctl.Exec) {
 				x.Violate("item-twice-in-one-shard", "item %s requested %d time(s) appears %d times in shard %d (broker %d, err %v)", it, w, cnt[it], i, sh.Meta.NodeID, sh.Err)
 			}
 			in[it] = append(in[it], i)
+			total[it] += cnt[it]
 		}
 		for it := range count(sub) {
 			subIn[it] = append(subIn[it], i)
@@ -475,25 +501,47 @@ func (st *state) checkShards(x *netctl.Exec) {
 	}
 	for _, it := range sortedKeys(want) {
 		n, exp := len(in[it]), st.fan(it)
+		if k.Cat == "replica" && exp > 1 && n > 0 {
+			// One piece per replica. A piece that could not be mapped to
+			// brokers (metadata failed) is an error shard without a broker
+			// and stands for every replica it would have gone to.
+			unissued, issued := 0, 0
+			seen := map[int32]bool{}
+			twice := false
+			for _, i := range in[it] {
+				sh := st.shards[i]
+				if sh.Err != nil && sh.Meta.NodeID < 0 {
+					unissued++
+					continue
+				}
+				issued++
+				if seen[sh.Meta.NodeID] {
+					twice = true
+				}
+				seen[sh.Meta.NodeID] = true
+			}
+			switch {
+			case twice:
+				x.Violate("replica-piece-twice", "item %s: more than one shard from the same replica broker (expected one piece per replica, %d replicas); shards: %s", it, exp, st.dump())
+			case issued+unissued > exp:
+				x.Violate("item-in-two-shards", "requested item %s is in %d returned shards %v, expected one per replica = %d; shards: %s", it, n, in[it], exp, st.dump())
+			case unissued == 0 && issued < exp:
+				x.Violate("item-missing-replica", "item %s is in %d shards, expected one per replica = %d; shards: %s", it, n, exp, st.dump())
+			}
+			continue
+		}
 		switch {
 		case n == 0:
 			x.Violate("item-missing", "requested item %s is in no returned shard (neither in a response nor in the Req of an error shard); shards: %s", it, st.dump())
 		case n < exp:
 			x.Violate("item-missing-replica", "item %s is in %d shards, expected one per replica = %d; shards: %s", it, n, exp, st.dump())
+		case n > exp && want[it] > 1 && total[it] <= exp*want[it]:
+			// An item the caller listed m times may come back as up to m
+			// pieces (one per listed occurrence), as long as it is not
+			// multiplied: the statement counts distinct requested items.
+			x.Count("duplicate_item_in_separate_shards", 1)
 		case n > exp:
 			x.Violate("item-in-two-shards", "requested item %s is in %d returned shards %v, expected %d; shards: %s", it, n, in[it], exp, st.dump())
-		}
-		if k.Cat == "replica" {
-			seen := map[int32]bool{}
-			for _, i := range in[it] {
-				sh := st.shards[i]
-				if sh.Err == nil {
-					if seen[sh.Meta.NodeID] {
-						x.Violate("replica-answered-twice", "item %s: two shards from broker %d; shards: %s", it, sh.Meta.NodeID, st.dump())
-					}
-					seen[sh.Meta.NodeID] = true
-				}
-			}
 		}
 	}
 	for _, it := range sortedKeys(st.wantSub) {
@@ -529,8 +577,14 @@ func (st *state) dump() string {
 		if sh.Req != nil && st.kind.ReqItems != nil {
 			s += fmt.Sprintf(" req=%v", st.kind.ReqItems(sh.Req))
 		}
+		if sh.Req != nil && st.kind.ReqSub != nil {
+			s += fmt.Sprintf(" req-partitions=%v", st.kind.ReqSub(sh.Req))
+		}
 		if sh.Resp != nil {
 			s += fmt.Sprintf(" resp=%v", st.kind.RespItems(sh.Resp))
+			if st.kind.RespSub != nil {
+				s += fmt.Sprintf(" resp-partitions=%v", st.kind.RespSub(sh.Resp))
+			}
 		}
 		out = append(out, s)
 	}
@@ -559,7 +613,7 @@ func (st *state) checkMerged(x *netctl.Exec) {
 		case "ListTransactions":
 			want["x:"+st.names.TA], want["x:"+st.names.TB] = 1, 1
 		case "DescribeLogDirsAll":
-			want["t/0"], want["t/1"], want["t/2"] = 1, 1, 1
+			want["t/0"], want["t/1"], want["t/2"], want["s/0"] = 1, 1, 1, 1
 			fan = func(string) int { return st.cfg.NB }
 		}
 	}
@@ -585,7 +639,7 @@ func (st *state) checkMerged(x *netctl.Exec) {
 			wild := it[:strings.LastIndex(it, ":")] + ":*"
 			c := gs[it] + gs[wild]
 			if c == 0 && st.mergedErr == nil {
-				x.Violate("merged-subitem-missing", "Request returned no error but the merged response lacks partition %s", it)
+				x.Violate("merged-subitem-missing", "Request returned no error but the merged response lacks partition %s; it holds groups %v with partitions %v", it, got, gs)
 			}
 			if c > st.wantSub[it] {
 				x.Violate("merged-subitem-twice", "merged response holds partition %s %d times", it, c)
